@@ -188,7 +188,7 @@ def handle (line : String) : Except String String := do
     let scopes ← (← (← j.getObjVal? "scopes").getArr?).toList.mapM (jScope st)
     let colName (i : Nat) : String := (normalize asciiFns st ⟨"_col_" ++ toString i, false⟩).name
     let refold (n : String) : String := (normalize asciiFns st ⟨n, false⟩).name
-    match qualifyModel ⟨colName, refold⟩ σ scopes with
+    match qualifyModel ⟨colName, refold, SqlglotModel.Generated.C10.joinContextDefinitionOrder⟩ σ scopes with
     | .ok r => return "ok " ++ (Json.arr (r.map scopeJson).toArray).compress
     | .error .optimize => return "err optimize"
     | .error .unsupported => return "err unsupported"
